@@ -4,6 +4,16 @@ import json, os
 HERE = os.path.dirname(os.path.abspath(__file__))
 
 CLAIMED = {
+ 'C20': dict(
+   text='Decides on the instantiated AST/CFG that every tbb::global_control created by set_global_tbb_concurrency is stored, on every path and on every call, into an owner with static storage duration (or returned to the caller), and that in each demo main with a "cores" option the knob call reaches every *_tbb entry-point call and its control dependence relative to those calls consists only of the options cores/parallel with positive polarity. These are exactly the two ways the property can fail; both are visible in the shape of the code.',
+   note='Assumes TBB semantics of global_control (limit in force while the object is alive). Only the TBB configuration is analysed (the knob does not exist otherwise). Option atoms are recognised as vm["key"].as<T>() / vm.count("key"); anything else is reported as undecided (exit 2), never as a pass.',
+   technique='storage-duration / escape rule on the resolved AST + relative control dependence on the clang CFG',
+   ref='DESIGN.md §4 C20'),
+ 'C11': dict(
+   text='On the CFG of each of the four demo mains: every validator applied to the graph read from the file dominates every call that reaches library algorithm code (call-graph closure), its rejecting edge reaches only non-zero return/exit with a diagnostic and no algorithm call, no validator or exit of the MPI main is control dependent on the rank, every exit after an algorithm call has status 0, and the value printed after "MCB weight = " is definitely assigned from an entry point. Gating, exit status and rank-uniform termination are decided for every input and rank count; that the printed number is the optimum inherits the limits of C02.',
+   note='All ranks are assumed to read the same file. assert() failures are not counted as exits. Pinned configuration (TBB+MPI) only. The (2k-1) range of the approximate demo is not decided here.',
+   technique='dominance, reachability and control-dependence rules over the clang CFG of each main; call-graph closure for "runs an algorithm"',
+   ref='DESIGN.md §4 C11'),
  'C19': dict(
    text='Every public header is compiled alone (and first) in every build configuration with clang++ (g++ too in the thorough tier), its templates are instantiated in such a TU, every definition in a header is checked for inline/template/internal linkage on the type-checked AST, and two objects including all headers are linked. A compile/link question is decided exactly by compiling and linking; nothing is executed.',
    note='Trusted: clang 14 / g++ 12 front ends and GNU ld; the four config.hpp variants CMake can produce here; *_tbb.hpp and mpi/ headers are not required to compile without TBB/MPI. Instantiation witnesses use adjacency_list<vecS,vecS,undirectedS> with double and int weights.',
